@@ -516,4 +516,65 @@ theorem sorted_stableSort {α : Type} (le : α → α → Bool)
   | nil => simp [stableSort]
   | cons x xs ih => exact sorted_orderedInsert le total trans x _ ih
 
+/-! ### the Entry API: `entry(k)` as a classification of the key -/
+
+/-- a key whose slot is not an `Item::None`: every configuration classifies it by the lookup and leaves the map alone -/
+theorem entryOf_of_ne (fx : Fix) (d : Dialect) (m : Items) (k : Nat) (h : imGet m k ≠ some .placeholder) :
+    entryOf fx d m k = (imGet m k, m) := by
+  unfold entryOf
+  cases hg : imGet m k with
+  | none => rfl
+  | some s => cases s with
+    | placeholder => exact absurd hg h
+    | item v => rfl
+
+/-- repaired code: occupied iff a lookup finds a value -/
+theorem entryOf_repaired (d : Dialect) (m : Items) (k : Nat) : entryOf repaired d m k = (vis (imGet m k), m) := by
+  unfold entryOf
+  cases hg : imGet m k with
+  | none => rfl
+  | some s => cases s with
+    | placeholder => cases d <;> rfl
+    | item v => rfl
+
+/-- `entry(k)` leaves the map alone or (InlineTable) writes `{}` at the key's position -/
+theorem entryOf_state (fx : Fix) (d : Dialect) (m : Items) (k : Nat) :
+    (entryOf fx d m k).2 = m ∨ ((imGet m k).isSome ∧ (entryOf fx d m k).2 = imSet m k (.item .tbl)) := by
+  unfold entryOf
+  cases hg : imGet m k with
+  | none => exact Or.inl rfl
+  | some s => cases s with
+    | placeholder =>
+      cases d <;> cases fx.entOcc <;> cases fx.inlineEntry <;> first | exact Or.inl rfl | exact Or.inr ⟨rfl, rfl⟩
+    | item v => exact Or.inl rfl
+
+theorem orInsertStep_of_ne (fx : Fix) (d : Dialect) (m : Items) (k n : Nat) (h : imGet m k ≠ some .placeholder) :
+    orInsertStep fx d m k n = orInsertStep repaired d m k n := by
+  unfold orInsertStep
+  cases hg : imGet m k with
+  | none => rfl
+  | some s => cases s with
+    | placeholder => exact absurd hg h
+    | item v => rfl
+
+theorem imGet_imSet_self {S : Type} (m : IMap S) (k : Nat) (s : S) (h : (imGet m k).isSome) :
+    imGet (imSet m k s) k = some s := by
+  induction m with
+  | nil => simp [imGet] at h
+  | cons e m ih =>
+    simp only [imSet]
+    by_cases hk : e.1 == k
+    · simp [hk, imGet]
+    · simp only [imGet, hk] at h
+      simp [hk, imGet, ih h]
+
+theorem imSet_imSet {S : Type} (m : IMap S) (k : Nat) (s t : S) : imSet (imSet m k s) k t = imSet m k t := by
+  induction m with
+  | nil => rfl
+  | cons e m ih =>
+    simp only [imSet]
+    by_cases hk : e.1 == k
+    · simp [hk, imSet]
+    · simp [hk, imSet, ih]
+
 end TomlVerif.Lemmas.Containers16
